@@ -320,6 +320,11 @@ def to_rat(v):
 _NP_INEXACT = ('np.float16', 'np.float32', 'np.float64', 'np.float128',
                'np.complex64', 'np.complex128', 'np.complex256')
 _NONFINITE = ('np.inf', '-np.inf', 'np.nan')
+try:
+    import numpy as _npx
+    _np_bool = _npx.bool_
+except ImportError:          # pragma: no cover
+    _np_bool = bool
 _CALL_FLAGS = ('_call_has_out', '_call_out_optional')
 
 
@@ -2002,6 +2007,11 @@ class Interp(object):
         if isinstance(l, _native) and isinstance(r, _native):
             # Python itself rejects the remaining combinations
             raise PyRaise('TypeError')
+        if isinstance(l, (bool, _np_bool)) and isinstance(r, (bool, _np_bool)) \
+                and op in (ast.BitOr, ast.BitAnd, ast.BitXor):
+            l, r = bool(l), bool(r)
+            return {ast.BitOr: l | r, ast.BitAnd: l & r,
+                    ast.BitXor: l ^ r}[op]
         raise Undecided('operator %s on %r, %r' % (op.__name__, l, r))
 
     def scalar_is_zero(self, r):
